@@ -334,12 +334,51 @@ def sd7(F, R):
             R.bad(fn, "data-cmds", "expected two data commands", kind="anchor-missing")
             continue
         vars_ = set()
+        helper_calls = []
         for b, t in data_cmds:
             a = strip_refs(fn.term_of_operand(t["args"][2], b))
             if a[0] == "var":
                 vars_.add(a[1])
+            elif a[0] == "place" and tuple(a[2]) == ("as:Continue", "0") and a[1][0] == "call" and try_inner(a[1]) is not None and try_inner(a[1])[0] == "call" and (try_inner(a[1])[1] or "").startswith("sdcard::"):
+                helper_calls.append((b, try_inner(a[1])))
             else:
                 R.bad(fn, "addr-var", "data command argument %s is not the per-card-type address" % tstr(a), fn.loc(b))
+        if len(helper_calls) == len(data_cmds) and len({h[1][1] for h in helper_calls}) == 1:
+            # the address comes from a private helper `fn(&self, block) -> Result<u32, Error>` called with the caller's block
+            # index and `?`: the per-kind table is read off the helper's own returns
+            from .poly import peq, MUL, C
+            from .ev import specialise_enum
+            hc = helper_calls[0][1]
+            H = [f for f in F.fns if f.npath == hc[1] and f.kind != "Closure"]
+            okh = len(H) == 1 and len(hc[2]) == 2 and strip_refs(hc[2][0])[:2] == ("arg", 1) and strip_refs(hc[2][1])[:2] == ("arg", 3)
+            R.require(okh, fn, "addr-var", "data command argument comes from %s, which is not called as helper(self, start_block_idx)" % hc[1], fn.loc(0))
+            if not okh:
+                continue
+            H = H[0]
+            vs = F.variants("sdcard::CardType")
+            is_opt = lambda x: x[0] == "place" and x[2] and x[2][-1] == "card_type"
+            is_kind = lambda x: x[0] == "place" and "card_type" in x[2] and "as:Some" in x[2] and x[2][-1] == "0"
+            for kind in [None] + list(vs):
+                cut = specialise_enum(H, is_opt, ["None", "Some"], "None" if kind is None else "Some")
+                if kind is not None:
+                    cut += specialise_enum(H, is_kind, vs, kind)
+                rs = H.reach([0], cut_edges=cut)
+                oks_ = [x for x in ok_returns(H) if x[0] in rs]
+                if kind is None:
+                    errs = [x for x in err_returns(H, adt="Error") if x[2] == "CardNotFound" and x[0] in rs]
+                    R.require(not oks_, fn, "uninit:no-command", "a data command is sent although the card is not initialised (card_type == None)", fn.loc(0))
+                    R.require(len(errs) >= 1, fn, "uninit->CardNotFound", "uninitialised card must give Err(CardNotFound)", fn.loc(0))
+                    continue
+                forms = set()
+                for (b_, i_, val) in oks_:
+                    val = strip_refs(val)
+                    forms.add("idx*512" if peq(val, MUL(("arg", 2, None), C(512))) else ("idx" if peq(val, ("arg", 2, None)) else tstr(val)))
+                tab[kind] = "|".join(sorted(forms)) or "unreachable"
+            tables[name] = tab
+            want = {k: ("idx" if k == "SDHC" else "idx*512") for k in vs}
+            R.require(tab == want, fn, "forms", "the data command address must be idx*512 for SD1/SD2 (byte addressed) and idx for SDHC (block addressed), got %s" % tab, fn.loc(0), okdetail="address table %s (from %s)" % (tab, hc[1].split("::")[-1]))
+            R.ok(fn, "mapping", "decided per card kind by specialising every card_type test of the helper")
+            continue
         if len(vars_) != 1:
             R.bad(fn, "addr-var", "read/write must use one address variable for both commands", fn.loc(0))
             continue
@@ -657,8 +696,8 @@ def sd11(F, R):
       doc="bounded SPI traffic: every loop in sdcard:: is a `for` over a slice or a finite constant Range, or passes through Delay::delay(..)? on every cycle with the Delay created outside the loop from a finite bound; Delay::delay fails at 0 and otherwise decrements")
 def sd12(F, R):
     for fn in F.fns:
-        if not fn.npath.startswith("sdcard::") or fn.npath.startswith("sdcard::proto::test"):
-            continue
+        if not fn.npath.startswith("sdcard::") or fn.npath.startswith("sdcard::proto"):
+            continue        # sdcard::proto is pure computation (CRC, CSD decoding): no SPI traffic to bound (its loops: CR1/CR2)
         all_loops = fn.loops()
         for (h, body, backs) in all_loops:
             # iterator-driven?  (only by an iterator advanced in this loop itself, not in a loop nested inside it)
